@@ -48,6 +48,7 @@ type lkPeer struct {
 var lkSlowDialPct = 0
 
 type lkCase struct {
+	burst                 bool // some answers are released two at a time
 	k, alpha, beta, limit int
 	key                   string
 	keyKad                *big.Int
@@ -261,6 +262,7 @@ type lkObs struct {
 	pubErr                  bool
 	pubCancelled            bool // the public run's own context was cancelled by the driver
 	slowDials               int
+	bursts                  int
 	attempts                []peer.ID
 	pubMoved                bool
 	pubMovedObservable      bool
@@ -385,8 +387,13 @@ func lkRun(t *testing.T, r *vfRand, c *lkCase, public bool, hooks ...*lkHooks) *
 	ctx, cancel := context.WithCancel(evCtx)
 	defer cancel()
 
-	followDone := 0 // follow-up queries released so far
+	followDone := 0        // follow-up queries released so far
+	var hold chan struct{} // burst cases: the lookup loop is parked here (inside its stop function) while two answers arrive
+	burstState := 0
 	stopFn := func(qp *qpeerset.QueryPeerset) bool {
+		if h := hold; h != nil {
+			<-h
+		}
 		switch c.stopKind {
 		case 1:
 			return len(qp.GetClosestInStates(qpeerset.PeerQueried)) >= c.stopArg
@@ -503,25 +510,64 @@ func lkRun(t *testing.T, r *vfRand, c *lkCase, public bool, hooks ...*lkHooks) *
 				}
 			}
 		}
-		call := pending[i]
-		if recordSend(call) {
-			return i
-		}
-		if call.kind == "dial" {
-			if j, ok := byID[call.p]; ok && c.peers[j].slowDial {
-				// a dial that succeeds (or is aborted by a cancellation) is no answer: the request follows
-				o.slowDials++
-				return i
+		noteRelease := func(call *simCall) {
+			if recordSend(call) {
+				return
+			}
+			if call.kind == "dial" {
+				if j, ok := byID[call.p]; ok && c.peers[j].slowDial {
+					// a dial that succeeds (or is aborted by a cancellation) is no answer: the request follows
+					o.slowDials++
+					return
+				}
+			}
+			if call.origin == "followup" {
+				followDone++
+			} else {
+				o.evs = append(o.evs, "Arrive "+simKadCoq([]byte(call.p)))
 			}
 		}
-		if call.origin == "followup" {
-			followDone++
-		} else {
-			o.evs = append(o.evs, "Arrive "+simKadCoq([]byte(call.p)))
+		// burst cases: park the lookup loop in its stop function (state 1), let two answers arrive while it
+		// is parked so that both outcomes wait in the update channel together (state 2), then let it go on.
+		// The order in which it takes them is the scheduler's choice: such runs are judged by the property
+		// on the trace only.
+		switch {
+		case c.burst && burstState == 0 && !public && len(pending) > 1 && r.Chance(50):
+			hold = make(chan struct{})
+			burstState = 1
+		case burstState == 1:
+			burstState = 2
+			if len(pending) > 1 {
+				j := (i + 1 + r.Intn(len(pending)-1)) % len(pending)
+				noteRelease(pending[j])
+				node.gate.Release(pending[j])
+				o.bursts++
+			}
+		case burstState == 2:
+			close(hold)
+			hold = nil
+			burstState = 0
+			return -1
 		}
+		noteRelease(pending[i])
 		return i
 	}
+	simOnIdle = func() bool {
+		if hold != nil {
+			close(hold)
+			hold = nil
+			burstState = 0
+			return true
+		}
+		return false
+	}
+	defer func() { simOnIdle = nil }()
 	ok, steps := simDrive(op, pick, node.gate, 20000)
+	if hold != nil {
+		close(hold)
+		hold = nil
+		synctest.Wait()
+	}
 	o.steps = steps
 	if !ok {
 		o.deadlock = true
@@ -684,7 +730,7 @@ func lkCoq(c *lkCase, o *lkObs, selfID peer.ID) string {
 			slow = append(slow, c.peers[j].id)
 		}
 	}
-	fmt.Fprintf(&b, "   c_universe := %s; c_full := %s; c_slow := %s;\n", uni, vfBool(c.fullKnowledge), lkIDs(slow))
+	fmt.Fprintf(&b, "   c_universe := %s; c_full := %s; c_slow := %s; c_burst := %s;\n", uni, vfBool(c.fullKnowledge), lkIDs(slow), vfBool(c.burst && o.bursts > 0))
 	st := make([]string, len(o.states))
 	for i, s := range o.states {
 		st[i] = lkStateCoq(s)
@@ -781,6 +827,7 @@ func lkRunAll(t *testing.T, runMod string, honestPct int, withPublic bool) {
 			continue
 		}
 		c := lkGen(r, i, r.Chance(honestPct))
+		c.burst = r.Chance(25)
 		vfBeat(map[string]any{"case": i, "seed": seed, "K": c.k, "alpha": c.alpha, "beta": c.beta, "npeers": len(c.peers), "stop": []int{c.stopKind, c.stopArg}, "strategy": c.strategy, "cancelAt": c.cancelAt})
 		var o *lkObs
 		var self peer.ID
@@ -852,6 +899,9 @@ func lkRunAll(t *testing.T, runMod string, honestPct int, withPublic bool) {
 		}
 		if o.slowDials > 0 {
 			cs.Count("with-slow-dials", 1)
+		}
+		if o.bursts > 0 {
+			cs.Count("with-simultaneous-answers", 1)
 		}
 		if c.stopKind > 0 {
 			cs.Count("with-stop", 1)
